@@ -35,6 +35,9 @@ claimed = {
  "C09": dict(design="5/C09",
    text="Same machinery as C08 with the crash instant fixed after the operation's successful return: for AddUser, UpdateUser, Init, SetAdmin and RemoveUser every persistence assignment allowed by the model shows the acknowledged effect, and no record is bound to its final name before its content is durable.",
    note="Trusted: as C08."),
+ "C07": dict(design="5/C07",
+   text="Bounded symbolic model checking of webSessionFactory (NewWebSessionFactory, Generate, Check, splitCheckToken) with AES-GCM as an ideal AEAD and a symbolic clock: for two instances and the strings listed in the bounds (issued tokens, splices within and across instances, single-character changes, truncations, extensions at text and decoded level, arbitrary text), acceptance implies that the decoded nonce and ciphertext are those of a token issued by this instance, within the lifetime, with the issued identity; arbitrary plaintexts sealed with the factory's own AEAD are accepted only if they parse per the reference grammar inside the time window; nonces are fresh random values; issuing writes no pre-existing state.",
+   note="Trusted: ideal-AEAD model (INT-CTXT), crypto/rand freshness, symbolic clock with 1 s guard band, lifetime 3 s instead of 600 s (the constant is outside this check). Data races are outside the model; the write-set oracle gives thread-safety of issuing by absence of shared writes."),
 }
 NA_DEFAULT = "check not built yet (framework under construction); see DESIGN.md section 5 for the plan"
 na_reason = {}
